@@ -51,27 +51,30 @@ inline Sched &sched() {
     return s;
 }
 
-// partition [0,n) into consecutive non-empty pieces by recursive binary splitting at tape-chosen cut points
-inline void split_rec(std::size_t lo, std::size_t hi, std::vector<std::pair<std::size_t, std::size_t>> &out, std::size_t &budget) {
+// partition [0,n) into consecutive non-empty pieces by recursive binary splitting at tape-chosen cut points.
+// Like oneTBB, a piece is only split while it is divisible (size > grainsize), and no piece gets smaller than grainsize/2.
+inline void split_rec(std::size_t lo, std::size_t hi, std::size_t grain, std::vector<std::pair<std::size_t, std::size_t>> &out, std::size_t &budget) {
     Sched &S = sched();
     std::size_t n = hi - lo;
-    if (n >= 2 && budget > 1) {
+    std::size_t g2 = grain / 2 > 0 ? grain / 2 : 1;
+    if (n >= 2 && n > grain && n >= 2 * g2 && budget > 1) {
         unsigned t = S.next();
         if (t % 3 != 0) {
-            std::size_t cut = lo + 1 + (S.next() % (n - 1));
+            std::size_t room = n - 2 * g2;              // cut in [lo+g2, hi-g2]
+            std::size_t cut = lo + g2 + (room ? S.next() % (room + 1) : 0);
             budget--;
-            split_rec(lo, cut, out, budget);
-            split_rec(cut, hi, out, budget);
+            split_rec(lo, cut, grain, out, budget);
+            split_rec(cut, hi, grain, out, budget);
             return;
         }
     }
     out.push_back({lo, hi});
 }
-inline std::vector<std::pair<std::size_t, std::size_t>> partition(std::size_t n) {
+inline std::vector<std::pair<std::size_t, std::size_t>> partition(std::size_t n, std::size_t grain = 1) {
     std::vector<std::pair<std::size_t, std::size_t>> out;
     if (n == 0) return out;
     std::size_t budget = sched().max_leaves;
-    split_rec(0, n, out, budget);
+    split_rec(0, n, grain < 1 ? 1 : grain, out, budget);
     return out;
 }
 // execution order: repeatedly take the (tape % remaining)-th of the remaining items; all-zero tape = in order
@@ -134,7 +137,7 @@ void parallel_for(const Range &range, const Body &body) {
     std::size_t n = range.empty() ? 0 : (std::size_t) (range.end() - range.begin());
     S.parallel_fors++;
     if (n == 0) return;
-    auto parts = partition(n);
+    auto parts = partition(n, range.grainsize());
     auto ord = mocktbb::order(parts.size());
     S.leaves += (long) parts.size();
     if (parts.size() > 1) S.fors_multi_leaf++;
@@ -162,7 +165,7 @@ Value parallel_reduce(const Range &range, const Value &identity, const RealBody 
     std::size_t n = range.empty() ? 0 : (std::size_t) (range.end() - range.begin());
     S.parallel_reduces++;
     if (n == 0) return identity;
-    auto parts = partition(n);
+    auto parts = partition(n, range.grainsize());
     S.leaves += (long) parts.size();
     // group consecutive leaves into accumulation runs
     std::vector<std::pair<std::size_t, std::size_t>> runs;   // [first leaf, last leaf]
